@@ -44,6 +44,7 @@ def generate(rng, tier, idx):
     if rng.random() < 0.12:
         lm = rng.choice([-3, -1, 0, 1, 2])
     return {'prop': ID, 'order_key': '%016x' % rng.getrandbits(64), 'top': 'Manifest',
+            'chunks': rng.choice([None, None, None, 'mixed', 'tiny', 4096]),
             'tree': g['tree'], 'manifests': g['manifests'], 'muts': muts,
             'ops': [{'op': 'verify', 'sub': sub, 'last_mtime': lm,
                      'policy': rng.choice(['false', 'false', 'true', 'none', 'mixed', 'mixed']),
@@ -78,7 +79,7 @@ def execute(sc):
                 applied += 1
                 kk = 'storage.' + m['m'] + ('->' + m['k'] if m['m'] in ('retype', 'add') and 'k' in m else '')
                 applied_kinds[kk] = applied_kinds.get(kk, 0) + 1
-        seam = Seam(w.root, order_key=sc['order_key'], virtual_root=True)
+        seam = Seam(w.root, order_key=sc['order_key'], virtual_root=True, read_chunks=sc.get('chunks'))
         if blocking_manifest(w.root):
             return mk_result([seam], [], False, outcome='skipped: FIFO Manifest', dontcare={'fifo-manifest': 1})
         model = Model(w.root, 'Manifest')
